@@ -269,7 +269,8 @@ pub fn check(case: &Case, obs: &mut Obs) -> Result<(), Failure> {
             rules: live_rules.clone(),
         }
         .router();
-        let model = Model::new(&case.cfg, &live_rules);
+        // rules harvested as raw JSON are outside the flat predicate: differential relations only
+        let model = if live_rules.iter().all(|r| r.raw.is_none()) { Some(Model::new(&case.cfg, &live_rules)) } else { None };
         for q in &case.probes {
             let request = q.build(&config);
             let got = ids_of(&router.match_request(&request));
@@ -281,10 +282,12 @@ pub fn check(case: &Case, obs: &mut Obs) -> Result<(), Failure> {
                     format!("step {step} {}: incremental router answers {got:?}, rebuilt router {reference:?} for {q:?}", op.kind()),
                 ));
             }
-            match judge(&model, q, &got) {
-                Verdict::Ok { .. } => {}
-                Verdict::F1(m) | Verdict::F13(m) | Verdict::Bad(m) => {
-                    return Err(fail("vs-flat-predicate", format!("step {step} {}: {m} for {q:?}", op.kind())));
+            if let Some(model) = &model {
+                match judge(model, q, &got) {
+                    Verdict::Ok { .. } => {}
+                    Verdict::F1(m) | Verdict::F13(m) | Verdict::Bad(m) => {
+                        return Err(fail("vs-flat-predicate", format!("step {step} {}: {m} for {q:?}", op.kind())));
+                    }
                 }
             }
         }
@@ -365,14 +368,39 @@ fn gen_change_set(rng: &mut Rng, live_ids: &mut Vec<String>, id_pool: &[String],
     (added, updated, deleted)
 }
 
+/// history over the rules of a fixture world: ids r00.. are slots, a slot is filled with (a copy of) any rule
+/// of the fixture under the slot's id, so that updates replace a rule by a differently shaped one
+pub fn fixture_case(rng: &mut Rng, max_ops: usize, fx: &crate::fixtures::Fixture, extra_probes: &[ReqSpec]) -> Case {
+    let n_ids = (fx.world.rules.len() + 2).min(12).max(3);
+    let id_pool: Vec<String> = (0..n_ids).map(|i| format!("r{i:02}")).collect();
+    let pool = &fx.world.rules;
+    let mut fresh = |rng: &mut Rng, id: &str| -> RuleSpec {
+        let mut r = rng.pick(pool).clone();
+        r.id = id.to_string();
+        r
+    };
+    let (ops, _all) = random_ops(rng, max_ops, &id_pool, &mut fresh);
+    let mut probes: Vec<ReqSpec> = fx.requests.clone();
+    for _ in 0..8 {
+        if !extra_probes.is_empty() {
+            probes.push(rng.pick(extra_probes).clone());
+        }
+    }
+    probes.sort_by_key(|q| serde_json::to_string(q).unwrap());
+    probes.dedup();
+    rng.shuffle(&mut probes);
+    probes.truncate(40);
+    Case {
+        cfg: fx.world.cfg.clone(),
+        ops,
+        probes,
+    }
+}
+
 pub fn random_case(rng: &mut Rng, max_ops: usize) -> Case {
     let cfg = Cfg::random(rng);
     let n_ids = rng.range(3, 12);
     let id_pool: Vec<String> = (0..n_ids).map(|i| format!("r{i:02}")).collect();
-    let nops = rng.range(4, max_ops);
-    let mut ops = Vec::new();
-    let mut live_ids: Vec<String> = Vec::new();
-    let mut all_rules: Vec<RuleSpec> = Vec::new();
     // bias towards a few bucket regions: reuse a small set of rule "shapes" per history
     let shape_seed = rng.next_u64();
     let n_shapes = rng.range(2, 6);
@@ -398,6 +426,23 @@ pub fn random_case(rng: &mut Rng, max_ops: usize) -> Case {
         }
         r
     };
+    let (ops, all_rules) = random_ops(rng, max_ops, &id_pool, &mut fresh);
+    // probes: a witness per rule ever inserted + mutations + a few random requests
+    let model = Model::new(&cfg, &all_rules);
+    let mut probes: Vec<ReqSpec> = probes_for(&model, rng, 1, 4).into_iter().map(|(q, _)| q).collect();
+    probes.sort_by_key(|q| serde_json::to_string(q).unwrap());
+    probes.dedup();
+    rng.shuffle(&mut probes);
+    probes.truncate(40);
+    Case { cfg, ops, probes }
+}
+
+/// random operation history over an id pool; `fresh(rng, id)` produces the rule stored under `id`
+fn random_ops(rng: &mut Rng, max_ops: usize, id_pool: &[String], fresh: &mut dyn FnMut(&mut Rng, &str) -> RuleSpec) -> (Vec<Op>, Vec<RuleSpec>) {
+    let nops = rng.range(4, max_ops);
+    let mut ops = Vec::new();
+    let mut live_ids: Vec<String> = Vec::new();
+    let mut all_rules: Vec<RuleSpec> = Vec::new();
     for _ in 0..nops {
         match rng.below(12) {
             0..=3 => {
@@ -416,7 +461,7 @@ pub fn random_case(rng: &mut Rng, max_ops: usize) -> Case {
                     let at = rng.below(live_ids.len());
                     ops.push(Op::Remove(live_ids.remove(at)));
                 } else {
-                    ops.push(Op::Remove(rng.pick(&id_pool).clone()));
+                    ops.push(Op::Remove(rng.pick(id_pool).clone()));
                     let last = match ops.last() {
                         Some(Op::Remove(id)) => id.clone(),
                         _ => unreachable!(),
@@ -427,19 +472,19 @@ pub fn random_case(rng: &mut Rng, max_ops: usize) -> Case {
             6 => {
                 let mut ids = Vec::new();
                 for _ in 0..rng.range(1, 4) {
-                    ids.push(rng.pick(&id_pool).clone());
+                    ids.push(rng.pick(id_pool).clone());
                 }
                 live_ids.retain(|id| !ids.contains(id));
                 ops.push(Op::BatchRemove(ids));
             }
             7 | 8 => {
-                let (added, updated, deleted) = gen_change_set(rng, &mut live_ids, &id_pool, &mut fresh);
+                let (added, updated, deleted) = gen_change_set(rng, &mut live_ids, id_pool, fresh);
                 all_rules.extend(added.iter().cloned());
                 all_rules.extend(updated.iter().cloned());
                 ops.push(Op::ChangeSet { added, updated, deleted });
             }
             9 | 10 => {
-                let (added, updated, deleted) = gen_change_set(rng, &mut live_ids, &id_pool, &mut fresh);
+                let (added, updated, deleted) = gen_change_set(rng, &mut live_ids, id_pool, fresh);
                 all_rules.extend(added.iter().cloned());
                 all_rules.extend(updated.iter().cloned());
                 ops.push(Op::CloneMutate { added, updated, deleted });
@@ -449,14 +494,7 @@ pub fn random_case(rng: &mut Rng, max_ops: usize) -> Case {
             }
         }
     }
-    // probes: a witness per rule ever inserted + mutations + a few random requests
-    let model = Model::new(&cfg, &all_rules);
-    let mut probes: Vec<ReqSpec> = probes_for(&model, rng, 1, 4).into_iter().map(|(q, _)| q).collect();
-    probes.sort_by_key(|q| serde_json::to_string(q).unwrap());
-    probes.dedup();
-    rng.shuffle(&mut probes);
-    probes.truncate(40);
-    Case { cfg, ops, probes }
+    (ops, all_rules)
 }
 
 // ---------------------------------------------------------------------------------------------
@@ -567,18 +605,36 @@ pub fn run(ctx: &Ctx, _args: &Args) -> i32 {
     let n_histories: u64 = ctx.tier.pick(2_400, 48_000);
     let max_ops: usize = ctx.tier.pick(25, 40);
 
-    let report = run_sharded(jobs, |shard, report| {
+    // rule sets of the repository's own fixtures as realistic data shapes (differential relations only)
+    let fixtures = crate::fixtures::load();
+    let fixture_requests: Vec<ReqSpec> = fixtures.iter().flat_map(|f| f.requests.iter().cloned()).collect();
+    let n_fixture_histories: u64 = ctx.tier.pick(800, 16_000);
+
+    let mut report = run_sharded(jobs, |shard, report| {
         let mut rng = Rng::stream(ctx.seed, shard as u64);
         for _ in 0..(n_histories / jobs as u64) {
             let case = random_case(&mut rng, max_ops);
             record(ctx, &case, report);
         }
+        if !fixtures.is_empty() {
+            for k in 0..(n_fixture_histories / jobs as u64) {
+                let fx = &fixtures[(k as usize * jobs + shard) % fixtures.len()];
+                let case = fixture_case(&mut rng, max_ops, fx, &fixture_requests);
+                record(ctx, &case, report);
+                report.count("fixture_histories");
+                report.state("fixture_worlds_used", &fx.name);
+            }
+        }
     });
+    report.notes.insert("fixture_worlds_parsed".into(), json!(fixtures.len()));
+    if fixtures.is_empty() {
+        report.inconclusive("no fixture world could be harvested from tests/redirectionio_router_test.rs: the fixture histories were not run");
+    }
 
     finish(
         ctx,
         report,
-        "random histories (<= 25/40 ops, <= 12 ids, few rule shapes per history so that the same bucket regions are emptied and refilled) over {insert, remove, batch_remove, apply_change_set, clone-then-mutate via RuleChangeSet::update_existing_router, cache}; after EVERY op: len/get_route_by_id/remove return vs live-set model, ids stored in the index == live ids (hook), every probe: incremental == rebuilt == flat predicate, every earlier shared base router re-probed. non-trivial = history with a removal-type op followed by an insert into a bucket that a removal had touched (observed through the index dump)",
+        "random histories over generated rules, and over the rule sets harvested from the repository's generated router test (raw JSON rules: differential relations only, no flat predicate) (<= 25/40 ops, <= 12 ids, few rule shapes per history so that the same bucket regions are emptied and refilled) over {insert, remove, batch_remove, apply_change_set, clone-then-mutate via RuleChangeSet::update_existing_router, cache}; after EVERY op: len/get_route_by_id/remove return vs live-set model, ids stored in the index == live ids (hook), every probe: incremental == rebuilt == flat predicate, every earlier shared base router re-probed. non-trivial = history with a removal-type op followed by an insert into a bucket that a removal had touched (observed through the index dump)",
         &["the C01 reference predicate", "id uniqueness among live rules (ops violating it are skipped and counted)"],
         started,
         50,
